@@ -41,6 +41,38 @@ type c13Scenario struct {
 	LateTracking bool `json:"late_tracking"`
 	// OldTimes: every line carries a server-time tag from years ago
 	OldTimes bool `json:"old_times"`
+	// Caps: "" capability negotiation off; "offered": negotiation on, the server lists capabilities
+	// (extended-join, multi-prefix, userhost-in-names, chghost ...) of which the client wants none, so none
+	// is enabled and the server talks plain RFC 1459; "tags": the client wants and gets server-time and
+	// account-tag, which only add tags to lines
+	Caps string `json:"caps,omitempty"`
+}
+
+var c13Offered = "account-notify away-notify extended-join multi-prefix userhost-in-names chghost server-time account-tag cap-notify invite-notify setname"
+
+// c13Negotiate plays the server's part of capability negotiation on a fresh connection.
+func c13Negotiate(tc *testClient, sc *c13Scenario) *Violation {
+	if sc.Caps == "" {
+		return nil
+	}
+	conn := tc.conn()
+	if !conn.WaitWritten(func(w string) bool { return strings.Contains(w, "CAP LS") }, stallTimeout()) {
+		return violationf("C13", "capability negotiation enabled but the client sent no CAP LS")
+	}
+	conn.SendLine(":irc.example.net CAP * LS :" + c13Offered)
+	if !conn.WaitWritten(func(w string) bool { return strings.Contains(w, "CAP REQ") || strings.Contains(w, "CAP END") }, stallTimeout()) {
+		return violationf("C13", "no answer to the server's capability list")
+	}
+	ls, _ := SplitCRLF(conn.Written())
+	for _, l := range ls {
+		if strings.HasPrefix(l, "CAP REQ :") {
+			conn.SendLine(":irc.example.net CAP me ACK :" + l[len("CAP REQ :"):])
+		}
+	}
+	if !conn.WaitWritten(func(w string) bool { return strings.Contains(w, "CAP END") }, stallTimeout()) {
+		return violationf("C13", "capability negotiation did not end")
+	}
+	return nil
 }
 
 var c13Chans = []string{"#a", "#b", "&c", "#D"}
@@ -71,6 +103,8 @@ func applyNetEvent(n *model.Net, e netEvent) []string {
 	case "chghost":
 		n.Users[e.U].Host = e.S
 		n.Users[e.U].Ident = "c" + n.Users[e.U].Ident
+	case "appnames":
+		lines = []string{"\x00NAMES " + e.Ch} // not a line: the runner sends NAMES <channel> for the application and serves it
 	case "appwho":
 		lines = []string{"\x00WHO " + e.Ch} // not a line: the runner calls conn.Who(channel) and serves the request
 	case "toggle":
@@ -108,7 +142,7 @@ func genNetEvent(t *rapid.T, n *model.Net) (netEvent, bool) {
 		sort.Strings(cs)
 		return cs
 	}
-	kinds := []string{"join", "join", "join", "clientjoin", "clientjoin", "part", "quit", "kick", "nick", "topic", "mode", "mode", "mode", "clientpart", "adduser", "umode", "clientnick", "join", "mode", "part", "reconnect", "toggle", "chghost", "appwho"}
+	kinds := []string{"join", "join", "join", "clientjoin", "clientjoin", "part", "quit", "kick", "nick", "topic", "mode", "mode", "mode", "clientpart", "adduser", "umode", "clientnick", "join", "mode", "part", "reconnect", "toggle", "chghost", "appwho", "appnames"}
 	switch k := rapid.SampledFrom(kinds).Draw(t, "event"); k {
 	case "reconnect":
 		return netEvent{Kind: "reconnect"}, true
@@ -120,6 +154,19 @@ func genNetEvent(t *rapid.T, n *model.Net) (netEvent, bool) {
 			return netEvent{}, false
 		}
 		return netEvent{Kind: "chghost", U: rapid.SampledFrom(us).Draw(t, "u"), S: rapid.SampledFrom([]string{"cloak.example", "staff.example", "10.0.0.7"}).Draw(t, "newhost")}, true
+	case "appnames":
+		// the application asks for a channel's NAMES list again (the reply shows, once more, each member's
+		// highest privilege only - it adds to what the client knows, it takes nothing away)
+		var cs []string
+		for _, ch := range c13Chans {
+			if n.ClientOn(ch) {
+				cs = append(cs, ch)
+			}
+		}
+		if len(cs) == 0 {
+			return netEvent{}, false
+		}
+		return netEvent{Kind: "appnames", Ch: rapid.SampledFrom(cs).Draw(t, "ch"), Split: rapid.IntRange(1, 3).Draw(t, "names_split"), B1: rapid.Bool().Draw(t, "names_trailing_space")}, true
 	case "appwho":
 		// the application refreshes its picture of a channel: conn.Who(channel)
 		var cs []string
@@ -324,7 +371,8 @@ func genNetEvent(t *rapid.T, n *model.Net) (netEvent, bool) {
 }
 
 func genC13(t *rapid.T) *c13Scenario {
-	sc := &c13Scenario{LateTracking: rapid.IntRange(0, 3).Draw(t, "late_tracking") == 0, OldTimes: rapid.IntRange(0, 3).Draw(t, "old_times") == 0}
+	sc := &c13Scenario{LateTracking: rapid.IntRange(0, 3).Draw(t, "late_tracking") == 0, OldTimes: rapid.IntRange(0, 3).Draw(t, "old_times") == 0,
+		Caps: rapid.SampledFrom([]string{"", "", "offered", "tags"}).Draw(t, "caps")}
 	n := model.NewNet("me")
 	add := func(e netEvent) {
 		sc.Events = append(sc.Events, e)
@@ -456,10 +504,20 @@ func expectedTrackerDiff(st state.Tracker, n *model.Net, nickUniverse map[string
 }
 
 func runC13(sc *c13Scenario) *Violation {
-	tc := newTestClient(cliOpts{Flood: true, Tracking: !sc.LateTracking, Nick: "me"})
+	tc := newTestClient(cliOpts{Flood: true, Tracking: !sc.LateTracking, Nick: "me", Configure: func(cfg *client.Config) {
+		if sc.Caps != "" {
+			cfg.EnableCapabilityNegotiation = true
+		}
+		if sc.Caps == "tags" {
+			cfg.Capabilites = []string{"server-time", "account-tag"}
+		}
+	}})
 	defer tc.shutdown()
 	if err := tc.connect(); err != nil {
 		return violationf("C13", "connect: %v", err)
+	}
+	if v := c13Negotiate(tc, sc); v != nil {
+		return v
 	}
 	conn := tc.conn()
 	n := model.NewNet("me")
@@ -515,10 +573,21 @@ func runC13(sc *c13Scenario) *Violation {
 			if err := tc.connect(); err != nil {
 				return violationf("C13", "event %d: reconnect: %v", ei, err)
 			}
+			if v := c13Negotiate(tc, sc); v != nil {
+				return v
+			}
 			conn = tc.conn()
 			pos = 0
 			lines = []string{fmt.Sprintf(":%s 001 %s :Welcome back %s!%s@%s", n.Server, n.MeNick(), n.MeNick(), n.Users[0].Ident, n.Users[0].Host)}
 			history = append(history, "<client reconnects>")
+		}
+		if e.Kind == "appnames" {
+			if st == nil {
+				continue
+			}
+			tc.C.Raw("NAMES " + e.Ch)
+			history = append(history, "<application sends NAMES "+e.Ch+">")
+			lines = []string{"PING :appnames"}
 		}
 		if e.Kind == "appwho" {
 			if st == nil {
@@ -574,6 +643,8 @@ func runC13(sc *c13Scenario) *Violation {
 				replies = append(replies, n.ReplyMode(f[1])...)
 			case len(f) == 2 && f[0] == "WHO" && !e.NoWho:
 				replies = append(replies, n.ReplyWho(f[1])...)
+			case len(f) == 2 && f[0] == "NAMES":
+				replies = append(replies, n.ReplyNames(f[1], e.Split, e.B1)...)
 			}
 		}
 		if len(replies) > 0 {
@@ -662,11 +733,14 @@ func (sc *c13Scenario) classes() (cls []string, nontrivial bool) {
 			cls = append(cls, "who_unanswered")
 		}
 	}
+	if sc.Caps != "" {
+		cls = append(cls, "capabilities_"+sc.Caps)
+	}
 	return uniqStrings(cls), joined && otherChange && gc
 }
 
 func TestC13(t *testing.T) {
-	col := evid.New("C13", "sessions generated by a model IRC network (3..7 users, 4 channels, every event kind incl. events the client cannot see, multi-line NAMES, colon/no-colon forms, list modes as stand-alone lines, WHO requests answered or not) run in lock-step against a tracked client; oracle: tracker == ground truth + revealed view at every step; non-trivial = client join followed by another user's membership change and a garbage-collecting event; distinct by session")
+	col := evid.New("C13", "sessions generated by a model IRC network (3..7 users, 4 channels, every event kind incl. events the client cannot see, multi-line NAMES, colon/no-colon forms, list modes as stand-alone lines, WHO requests answered or not, NAMES asked for again by the application, capability negotiation off / on with nothing wanted / on with tag-only capabilities) run in lock-step against a tracked client; oracle: tracker == ground truth + revealed view at every step; non-trivial = client join followed by another user's membership change and a garbage-collecting event; distinct by session")
 	defer finish(t, col)
 	rapid.Check(t, func(t *rapid.T) {
 		sc := genC13(t)
